@@ -199,6 +199,7 @@ def run(ctx):
 
     d6_reuse_key(db, rep)
     const_pool_key(db, rep, "D8-CONST-POOL-KEY")
+    d12_shift_and_division_domain(db, rep)
     # the element count a native loop runs over must not depend on stale executor contents (position/n independence of the result) (shared with C03 D8)
     import emitstate as _es
     _names = {}
@@ -421,3 +422,86 @@ def const_pool_key(db, rep, rule):
         raise AnalysisBroken("only %d constant-pool key comparisons found in orccompiler.c" % n)
     return n
 
+
+
+
+def d12_shift_and_division_domain(db, rep):
+    """Two operand-value clauses with a structural side in the emulator.
+    D12-SHIFT-COUNT-RANGE: "shifts by 0..width-1" - where an emulate_sh* function masks its count, the mask keeps every count below the
+    element width (mask >= width-1); a narrower mask (0x1f on a 64-bit shift) turns counts 32..63 into count-32.
+    D13-EMU-DIVISOR-GUARDED: an integer division whose divisor is an element value sits in the else-branch of a `divisor == 0 ?` test of
+    that very expression (same operand, same mask), the constant the reference gives for division by zero being the other branch."""
+    def peel(e):
+        e = strip_casts(e)
+        while e is not None and e.k == "ParenExpr":
+            e = strip_casts(e.c[0])
+        return e
+    NARROW = {"orc_uint8": 8, "orc_int8": 8, "unsigned char": 8, "signed char": 8, "char": 8, "orc_uint16": 16, "orc_int16": 16, "short": 16, "unsigned short": 16}
+
+    def canon(e, mask=None):
+        """text of an integer expression with parentheses and value-preserving casts removed.  An explicit cast to an 8- or 16-bit
+        type is kept in the text (it can turn a non-zero value into 0) unless the expression is masked, right there, with a constant
+        that fits the narrow type."""
+        pre = ""
+        while e is not None and e.k in ("ParenExpr", "ImplicitCastExpr", "CStyleCastExpr"):
+            if e.k == "CStyleCastExpr":
+                w = NARROW.get((e.ty or "").strip())
+                if w is not None and not (mask is not None and 0 <= mask < (1 << w)):
+                    pre += "(%s)" % e.ty.strip()
+            e = e.c[0] if e.c else None
+        if e is None:
+            return "?"
+        if e.k == "BinaryOperator":
+            m = None
+            if e.op == "&":
+                vs = [peel(x).v for x in e.c if peel(x) is not None and peel(x).v is not None]
+                m = vs[0] if vs else None
+            return pre + "(%s%s%s)" % (canon(e.c[0], m), e.op, canon(e.c[1], m))
+        if e.v is not None and e.k not in ("MemberExpr", "DeclRefExpr", "ArraySubscriptExpr"):
+            return pre + str(e.v)
+        return pre + unparse(e)
+    bits = {"b": 8, "w": 16, "l": 32, "q": 64}
+    ns = nd = 0
+    for f in db.tu("orcemulateopcodes").main_functions():
+        if not f.name.startswith("emulate_"):
+            continue
+        op = f.name[len("emulate_"):]
+        for e in f.walk():
+            if e.k != "BinaryOperator":
+                continue
+            if e.op in ("<<", ">>") and op[:3] in ("shl", "shr") and op[-1] in bits:
+                r = peel(e.c[1])
+                if r is None or r.v is not None:
+                    continue
+                ns += 1
+                rep.saw(f)
+                ok, m = True, None
+                if r.k == "BinaryOperator" and r.op == "&":
+                    ms = [peel(x).v for x in r.c if peel(x) is not None and peel(x).v is not None]
+                    m = ms[0] if ms else None
+                    ok = m is None or m >= bits[op[-1]] - 1
+                rep.check(ok, "D12-SHIFT-COUNT-RANGE", where(f), "%s@%s" % (f.name, e.line), "the shift count is used whole, or masked with at least width-1",
+                          "%s masks its shift count with 0x%x although the element is %d bits wide: counts %d..%d shift by a different amount than asked "
+                          "(the reference shifts by 0..width-1)" % (f.name, m or 0, bits[op[-1]], (m or 0) + 1, bits[op[-1]] - 1), line=e.line)
+            elif e.op in ("/", "%") and "float" not in (e.ty or "") and "double" not in (e.ty or ""):
+                r = peel(e.c[1])
+                if r is None or r.v is not None:
+                    continue
+                nd += 1
+                rep.saw(f)
+                want = canon(r)
+                guards = []
+                x, child = e.parent, e
+                while x is not None:
+                    if x.k == "ConditionalOperator" and len(x.c) == 3 and any(y is child for y in x.c[2].walk()) | (x.c[2] is child):
+                        c = peel(x.c[0])
+                        if c is not None and c.k == "BinaryOperator" and c.op == "==" and peel(c.c[1]) is not None and peel(c.c[1]).v == 0:
+                            guards.append(canon(c.c[0]))
+                    child, x = x, x.parent
+                rep.check(want in guards, "D13-EMU-DIVISOR-GUARDED", where(f), "%s:/%s" % (f.name, want[:40]),
+                          "the divisor is tested against 0 by the enclosing conditional",
+                          "%s divides by `%s` under the guard(s) %s: a divisor the guard lets through can be 0 (SIGFPE in the emulator, where the reference "
+                          "gives a constant)" % (f.name, want[:60], guards or "none"), line=e.line)
+    if ns < 12 or nd < 1:
+        raise AnalysisBroken("emulator shifts by a variable count: %d (12 expected), guarded integer divisions: %d" % (ns, nd))
+    return ns + nd
